@@ -67,10 +67,30 @@ func moduleMap(p payload) *tengo.ModuleMap {
 	return bridge.HostModuleMap()
 }
 
+// dump renders everything that decides what a bytecode does: the main
+// instructions and every constant (functions as instruction listings).
+func dump(bc *tengo.Bytecode) string {
+	var sb strings.Builder
+	sb.WriteString(strings.Join(tengo.FormatInstructions(bc.MainFunction.Instructions, 0), "\n"))
+	for i, c := range bc.Constants {
+		fmt.Fprintf(&sb, "\n[%d] ", i)
+		if fn, ok := c.(*tengo.CompiledFunction); ok {
+			fmt.Fprintf(&sb, "func/%d/%d/%v: %s", fn.NumLocals, fn.NumParameters, fn.VarArgs, strings.Join(tengo.FormatInstructions(fn.Instructions, 0), "; "))
+		} else {
+			sb.WriteString(tv.Describe(c))
+		}
+	}
+	return sb.String()
+}
+
 func roundTrip(bc *tengo.Bytecode, mm *tengo.ModuleMap) (*tengo.Bytecode, error) {
 	var buf bytes.Buffer
+	before := dump(bc)
 	if err := bc.Encode(&buf); err != nil {
 		return nil, fmt.Errorf("encode: %w", err)
+	}
+	if after := dump(bc); after != before {
+		return nil, fmt.Errorf("Encode changed the bytecode it was asked to write:\n--- before ---\n%s\n--- after ---\n%s", clip(before), clip(after))
 	}
 	out := &tengo.Bytecode{}
 	if err := out.Decode(bytes.NewReader(buf.Bytes()), mm); err != nil {
